@@ -1,4 +1,5 @@
 import TrVerif.Model.Block
+import TrVerif.Model.Osrm
 open Tr
 
 partial def loop (h : IO.FS.Stream) (st : DState) : IO Unit := do
@@ -20,8 +21,17 @@ partial def loop (h : IO.FS.Stream) (st : DState) : IO Unit := do
       | some st' => loop h st'
       | none => IO.eprintln s!"bad line: {line}"; IO.Process.exit 2
 
+/-- outcome class of every fault of the scripted router on a healthy two-stop row (read by check/fault_checks.py) -/
+def c20Classes : List String :=
+  let dur := [some 0, some 10, some 20]; let dist := [some 0, some 15, some 30]
+  ["refuse", "drop", "truncate", "http500", "empty", "nonjson", "nodurations", "nulls", "fewer", "healthy"].map fun f =>
+    match lookup [4, 7] 100 (faultReply f dur dist) with
+    | .throws => s!"{f} throws"
+    | .stops l => s!"{f} stops {l.length}"
+
 def main (args : List String) : IO Unit := do
   match args with
+  | ["--c20-classes"] => for l in c20Classes do IO.println l
   | [f] => do
     let hnd ← IO.FS.Handle.mk f IO.FS.Mode.read
     loop (IO.FS.Stream.ofHandle hnd) {}
